@@ -412,6 +412,12 @@ pub fn build_block(builder: &Node, keys: &[Key], spec: BlockSpec) -> Result<Bloc
 
 /// as `build_block`; `ticket` (when given) replaces the honestly mined golden ticket of a `spec.gt` block
 pub fn build_block_with_ticket(builder: &Node, keys: &[Key], spec: BlockSpec, ticket: Option<(GoldenTicket, usize)>) -> Result<Block, String> {
+    build_block_custom(builder, keys, spec, ticket, None)
+}
+
+/// as `build_block_with_ticket`; `edit_gt` may rework the finished golden-ticket transaction (add inputs,
+/// outputs, a routing path; it has to re-sign it itself) before the block is created around it
+pub fn build_block_custom(builder: &Node, keys: &[Key], spec: BlockSpec, ticket: Option<(GoldenTicket, usize)>, edit_gt: Option<&dyn Fn(&mut Transaction)>) -> Result<Block, String> {
     let creator = &keys[spec.creator];
     let mut map: AHashMap<SaitoSignature, Transaction> = AHashMap::new();
     for mut tx in spec.txs {
@@ -432,6 +438,9 @@ pub fn build_block_with_ticket(builder: &Node, keys: &[Key], spec: BlockSpec, ti
             Some((g, miner)) => gt_tx(g, &keys[miner]),
             None => gt_tx(mine_gt(parent.hash, parent.difficulty, creator, parent.id), creator),
         };
+        if let Some(f) = edit_gt {
+            f(&mut t);
+        }
         t.generate(&creator.pk, 0, 0);
         Some(t)
     } else {
